@@ -136,8 +136,8 @@ func check(t ev.TB, c Case, labels ...string) {
 	labels = append(labels, fmt.Sprintf("nodes:%d", c.Nodes))
 	ev.Case(nt, c, labels...)
 	if f != nil && f.inconclusive {
-		ev.Count("inconclusive_cases", 1)
-		t.Fatalf("VERIF-INCONCLUSIVE %s", f.msg)
+		ev.Inconclusive(t, f.msg)
+		return
 	}
 	if f != nil {
 		ev.Fail(t, "session-lifecycle", c, "%s", f.msg)
